@@ -843,14 +843,16 @@ def order_equiv(ctx, t1, t2, variables, pre=None, lo=1):
         for p in (r.num, r.den):
             for c in p.values():
                 yield c
+    idset = set(ids)
     for t in (t1, t2):
-        rs = [t]
-        for a in ctx.all_atoms(t):
-            rs.extend(ctx.atoms[a][1])
-        for r in rs:
-            for c in coeffs(r):
-                if c.denominator == 1:
-                    hi = max(hi, int(abs(c)) + 2)
+        for a in ctx.all_atoms(t) if ids else ():
+            hd, ar = ctx.atoms[a]
+            # only comparisons between the integer quantities and constants decide the range to enumerate
+            if hd[0] == "cmp" and hd[1] in ("eq", "ne", "lt", "le") and all(x.atom_ids() <= idset for x in ar):
+                for r in ar:
+                    for c in coeffs(r):
+                        if c.denominator == 1:
+                            hi = max(hi, int(abs(c)) + 2)
     if hi > 12:
         return None
     # discover the propositional variables
@@ -888,6 +890,12 @@ def cond_equiv(v, t1, t2, variables=(), pre=None, lo=0):
     if v.eq(t1, t2):
         return True
     return order_equiv(v.ctx, t1, t2, list(variables), pre=pre, lo=lo) is True
+
+
+def cond_implies(v, a, b, variables=(), pre=None, lo=0):
+    """a -> b as predicates (finite propositional / order-type decision)"""
+    t = v.ev._bool("or", [v.ev._not(a), b])
+    return order_equiv(v.ctx, t, v.ctx.mk(("const", True)), list(variables), pre=pre, lo=lo) is True
 
 
 def if_stmt_of(v, testexpr):
